@@ -164,7 +164,7 @@ theorem cap_step (c : Capture) (w : Wire) (op : WOp) (h : CapRel c w)
       · simp [Wire.step, hw]
       · have : ¬ (s < 200) := by omega
         simp [Capture.step, this, hcs]
-  | write n =>
+  | write n acc =>
     rcases hs with ⟨hw, hc0⟩ | ⟨s, hs200, hw, hcs⟩
     · exact ⟨by simp [Capture.step, Wire.step, hl], Or.inr ⟨200, by omega, by simp [Wire.step, hw], by simp [Capture.step, hc0]⟩⟩
     · refine ⟨by simp [Capture.step, Wire.step, hl], Or.inr ⟨s, hs200, by simp [Wire.step, hw], ?_⟩⟩
@@ -173,7 +173,7 @@ theorem cap_step (c : Capture) (w : Wire) (op : WOp) (h : CapRel c w)
 
 /-- **Response capture is exact** for every sequence of WriteHeader/Write calls with final
     (≥ 200) status codes: captured status = status actually sent (0 iff nothing was sent),
-    captured length = bytes written. -/
+    captured length = bytes the underlying writer accepted (also when it takes less than it was offered). -/
 theorem capture_exact (ops : List WOp) (h : finalCodes ops) :
     CapRel (ops.foldl Capture.step {}) (ops.foldl Wire.step {}) := by
   suffices ∀ c w, CapRel c w → CapRel (ops.foldl Capture.step c) (ops.foldl Wire.step w) from
@@ -192,8 +192,8 @@ example : requestID (newOpts [.header "Custom-Id", .limit 3]) [97, 98, 99, 100, 
 example : (chain [116] [] (fun _ => false) (fun k => ([], [UInt8.ofNat (48 + k)])) 0 3).map
       (fun o => o.map (fun s => (s.trace, s.span, s.parent)))
     = [some ([116], [48], none), some ([116], [49], some [48]), some ([116], [50], some [49])] := by decide
-example : finalCodes [.write 3, .writeHeader 404, .write 2] ∧
-    ([WOp.write 3, .writeHeader 404, .write 2].foldl Capture.step {}) = ⟨200, 5⟩ := by
+example : finalCodes [.write 3 3, .writeHeader 404, .write 9 2] ∧
+    ([WOp.write 3 3, .writeHeader 404, .write 9 2].foldl Capture.step {}) = ⟨200, 5⟩ := by
   constructor
   · intro op hop c hc; simp at hop; rcases hop with rfl | rfl | rfl <;> simp_all <;> omega
   · decide
